@@ -727,20 +727,11 @@ func (st *States) AllowedConsensus() bool {
 }
 
 func (st *States) SetAllowConsensus(allow bool) bool { // revive:disable-line:flag-parameter
-	st.stateLock.RLock()
-	defer st.stateLock.RUnlock()
+	isset := st.setAllowConsensusToCurrent(allow)
 
-	isset := st.setAllowConsensus(allow)
-
+	// NOTE handover brokers are canceled out of stateLock; canceling broker
+	// looks for the current state.
 	if isset {
-		switch current := st.current(); {
-		case current == nil:
-		case current.state() == StateJoining, current.state() == StateConsensus:
-			st.Log().Debug().Stringer("current", current.state()).Bool("allow", allow).Msg("set allow consensus")
-
-			current.whenSetAllowConsensus(allow) // NOTE if not allowed, exits from consensus state
-		}
-
 		if broker := st.HandoverXBroker(); broker != nil && !allow {
 			broker.cancel(errors.Errorf("not allowed consensus"))
 			st.cleanHandovers()
@@ -753,6 +744,29 @@ func (st *States) SetAllowConsensus(allow bool) bool { // revive:disable-line:fl
 			st.cleanHandovers()
 
 			st.Log().Debug().Msg("allowed consensus, handover y broker canceled")
+		}
+	}
+
+	return isset
+}
+
+// setAllowConsensusToCurrent sets allow consensus and notifies it to the
+// current handler; state is not switched in the meantime. stateLock is read
+// locked only once; with the pending switchState(), the recursive read locking
+// blocks forever.
+func (st *States) setAllowConsensusToCurrent(allow bool) bool { // revive:disable-line:flag-parameter
+	st.stateLock.RLock()
+	defer st.stateLock.RUnlock()
+
+	isset := st.setAllowConsensus(allow)
+
+	if isset {
+		switch current := st.cs; {
+		case current == nil:
+		case current.state() == StateJoining, current.state() == StateConsensus:
+			st.Log().Debug().Stringer("current", current.state()).Bool("allow", allow).Msg("set allow consensus")
+
+			current.whenSetAllowConsensus(allow) // NOTE if not allowed, exits from consensus state
 		}
 	}
 
